@@ -17,16 +17,19 @@ EXTENDS Integers, Sequences, FiniteSets, TLC
 CONSTANTS Threads, MaxId, SerialMod, NAlloc, StartId, StartSerial, LockEnforced,
           RefThreads, NRef, StartCtr
 VARIABLES nextId, nextSerial, creation, lock, pc, lid, lser, left, issued,
-          ctr, rpc, rwords, rleft, rissued
+          ctr, rpc, rwords, rleft, rissued,
+          origin      \* ghost: the position <<id, serial>> the allocator was at when observation began;
+                      \* everything before that position (in issue order) counts as already issued
 pvars == <<nextId, nextSerial, creation, lock, pc, lid, lser, left, issued>>
 rvars == <<ctr, rpc, rwords, rleft, rissued>>
-vars == <<pvars, rvars>>
+vars == <<pvars, rvars, origin>>
 None == 0     \* thread identities are model values or positive integers
 Init == /\ nextId = StartId /\ nextSerial = StartSerial /\ creation = 1 /\ lock = None
         /\ pc = [t \in Threads |-> "idle"] /\ lid = [t \in Threads |-> 0] /\ lser = [t \in Threads |-> 0]
         /\ left = [t \in Threads |-> NAlloc] /\ issued = <<>>
         /\ ctr = StartCtr /\ rpc = [t \in RefThreads |-> 0] /\ rwords = [t \in RefThreads |-> <<>>]
         /\ rleft = [t \in RefThreads |-> NRef] /\ rissued = <<>>
+        /\ origin = <<StartId, StartSerial>>
 Go(t, from, to) == pc[t] = from /\ pc' = [pc EXCEPT ![t] = to]
 Call(t)    == Go(t, "idle", "probe") /\ left[t] > 0 /\ left' = [left EXCEPT ![t] = @ - 1]
               /\ UNCHANGED <<nextId, nextSerial, creation, lock, lid, lser, issued, rvars>>
@@ -48,7 +51,7 @@ Return(t)  == Go(t, "ret", "idle") /\ issued' = Append(issued, <<lid[t], lser[t]
               /\ UNCHANGED <<nextId, nextSerial, creation, lid, lser, left, rvars>>
 \* the environment changes the creation (Node::start) only while no allocation is in progress
 SetCreation(c) == /\ \A t \in Threads : pc[t] = "idle" /\ creation' = c
-                  /\ UNCHANGED <<nextId, nextSerial, lock, pc, lid, lser, left, issued, rvars>>
+                  /\ UNCHANGED <<nextId, nextSerial, lock, pc, lid, lser, left, issued, rvars, origin>>
 \* ---- references
 RefWord(t) == /\ rpc[t] < 3 /\ (rpc[t] > 0 \/ rleft[t] > 0)
               /\ rwords' = [rwords EXCEPT ![t] = Append(@, ctr)] /\ ctr' = ctr + 1
@@ -59,8 +62,8 @@ RefReturn(t) == /\ rpc[t] = 3 /\ rissued' = Append(rissued, rwords[t])
                 /\ rpc' = [rpc EXCEPT ![t] = 0] /\ rwords' = [rwords EXCEPT ![t] = <<>>]
                 /\ UNCHANGED <<ctr, rleft, pvars>>
 PStep(t) == Call(t) \/ Acquire(t) \/ LoadId(t) \/ LoadSer(t) \/ StoreOne(t) \/ FetchAdd(t) \/ StoreNext(t) \/ Return(t)
-PNext == \E t \in Threads : PStep(t)
-RNext == \E t \in RefThreads : RefWord(t) \/ RefReturn(t)
+PNext == (\E t \in Threads : PStep(t)) /\ UNCHANGED origin
+RNext == (\E t \in RefThreads : RefWord(t) \/ RefReturn(t)) /\ UNCHANGED origin
 Next == PNext \/ RNext
 Spec == Init /\ [][Next]_vars
 \* ---- C16
@@ -69,5 +72,10 @@ Bounded == Len(issued) < MaxId * SerialMod      \* the id/serial space itself re
 UniqueWhileBounded == Bounded => Unique
 CreationInForce == \A i \in 1..Len(issued) : issued[i][3] = creation
 RefUnique == \A i, j \in 1..Len(rissued) : i # j => rissued[i] # rissued[j]
+\* An identifier issued now is not one that was issued before observation began: with the allocator having
+\* reached <<origin id, origin serial>> from <<1, 0>>, every <<id, serial>> before that position is taken.
+\* (d = number of id-space wraps between the origin and the issue; exact while fewer than SerialMod wraps happened)
+NoReissue == (nextSerial - origin[2] < SerialMod) =>
+             \A i \in 1..Len(issued) : LET d == (issued[i][2] - origin[2]) % SerialMod IN d > 0 \/ issued[i][1] >= origin[1]
 SerialAdvancesOnWrap == \A i \in 1..Len(issued) : \A j \in 1..Len(issued) : (i < j /\ issued[i][1] = issued[j][1]) => issued[i][2] # issued[j][2]
 =============================================================================
